@@ -28,6 +28,8 @@ import (
 type BaseOutSession struct {
 	cmdSession IInterleavedPacketWriter
 
+	// sdpMu 保护sdpCtx：sdp有可能由输入流所在的协程设置（sub先于输入流到达的情况），而setup在sub自己的协程中读取它
+	sdpMu  sync.Mutex
 	sdpCtx sdp.LogicContext
 
 	audioRtpConn     *nazanet.UdpConnection
@@ -66,10 +68,14 @@ func NewBaseOutSession(sessionType base.SessionType, cmdSession IInterleavedPack
 }
 
 func (session *BaseOutSession) InitWithSdp(sdpCtx sdp.LogicContext) {
+	session.sdpMu.Lock()
 	session.sdpCtx = sdpCtx
+	session.sdpMu.Unlock()
 }
 
 func (session *BaseOutSession) SetupWithConn(uri string, rtpConn, rtcpConn *nazanet.UdpConnection) error {
+	session.sdpMu.Lock()
+	defer session.sdpMu.Unlock()
 	if session.sdpCtx.IsAudioUri(uri) {
 		session.audioRtpConn = rtpConn
 		session.audioRtcpConn = rtcpConn
@@ -87,6 +93,8 @@ func (session *BaseOutSession) SetupWithConn(uri string, rtpConn, rtcpConn *naza
 }
 
 func (session *BaseOutSession) SetupWithChannel(uri string, rtpChannel, rtcpChannel int) error {
+	session.sdpMu.Lock()
+	defer session.sdpMu.Unlock()
 	if session.sdpCtx.IsAudioUri(uri) {
 		session.audioRtpChannel = rtpChannel
 		session.audioRtcpChannel = rtcpChannel
